@@ -154,6 +154,12 @@ def deploy_path(I, res, prop):
     times = 1 + I.path.choose(3, "deploys")
     rs = []
     for i in range(times):
+        # every revision has its own name and one more act: the row must describe the LAST one
+        model = dict(model, name="demo-r%d" % (i + 1))
+        if i > 0 and not dup:
+            import copy
+            model = copy.deepcopy(model)
+            model["steps"][0]["acts"].append(scen.irq("r%d" % i))
         m = W.model(model)
         rs.append(I.call_raw("export::executor::model_executor::ModelExecutor::deploy", [Ptr([ex], 0), Ptr([m], 0)], None))
     res.witnesses += 1
@@ -172,6 +178,9 @@ def deploy_path(I, res, prop):
         cx.viol("deploy:not-stored", "the deployed model is not in the store")
         return
     row = dict(zip([f[0] for f in I.p.src.struct_fields("store::data::model::Model")], got.f[0].f))
+    for col, want in (("id", "dm"), ("name", "demo-r%d" % times)):
+        if W.py(row[col]) != want:
+            cx.viol("deploy:row-%s-not-of-last-revision" % col, "after %d deploys the stored row has %s = %r, the last deployed model says %r" % (times, col, W.py(row[col]), want))
     if row["ver"] != times:
         cx.viol("deploy:version=%s/%d" % (row["ver"], times), "after %d deploys the stored version is %s" % (times, row["ver"]))
     # stored text parses back to the given model (structural serde model)
